@@ -25,7 +25,7 @@ ASSUMPTIONS = [
     "with link faults enabled the clauses are checked only while the ASH link has not failed",
 ]
 PROBES = ["type.unicast", "type.multicast", "type.broadcast", "type.other_defined", "type.undefined", "join.allowed", "join.denied", "join.left", "join.left_denied",
-          "payload.empty", "payload.max", "rssi.negative", "faulty_link", "xiaomi_prefix", "join.device_known", "message_from_nwk_of_last_join_callback", "started_by_zigpy_auto_form", "reconnect_other_version", "callback_under_sequence_pending_on_another_connection", "callback_under_sequence_left_pending_on_old_connection", "callback_during_reload", "callback_during_energy_scan", "callback_during_permit", "callback_during_add_endpoint"]
+          "payload.empty", "payload.max", "rssi.negative", "faulty_link", "xiaomi_prefix", "join.device_known", "message_from_nwk_of_last_join_callback", "started_by_zigpy_auto_form", "reconnect_other_version", "coordinator_member_of_message_group", "callback_under_sequence_pending_on_another_connection", "callback_under_sequence_left_pending_on_old_connection", "callback_during_reload", "callback_during_energy_scan", "callback_during_permit", "callback_during_add_endpoint"]
 
 VERSIONS = list(range(4, 15))
 UNICAST, MULTICAST, BROADCAST = 0, 2, 4
@@ -196,6 +196,11 @@ def run(scenario, params, tape, detail=False):
             plan_.on = True
             probe("faulty_link")
         if scenario == "types":
+            # the coordinator is itself a member of some of the groups the messages below are addressed to (so a multicast LOOPBACK - type 3 -
+            # for a subscribed group is among them): membership changes nothing about which message types yield a packet
+            for g in (0x1234 + 3, 0x1234 + 2, 0x1234 + 7):
+                await app._multicast.subscribe(g)
+            probe("coordinator_member_of_message_group")
             for mtype in range(256):
                 k = mtype % 4
                 aps = (0x0104, 0x0006 + mtype, 1 + k, 1, 0x0140, 0x1234 + mtype, mtype ^ 0x5A)
